@@ -249,19 +249,12 @@ def run(ck, F):
         hdr = find(v, lambda t: named_call(t, 'allocate'))
         lw = [e for e in st.effects if e[0] == 'write' and e[1][0] == 'fld' and e[1][2] == 'length']
         cp = [e for e in st.effects + [('val', v)] if False]
-        copies = [('call', e[1], None, e[3]) for e in st.effects if e[0] == 'fcall' and contracts.fn_simple(e[1]) == 'copy']
-        # room for at least n bytes is requested (asking for more is harmless), the recorded length is exactly n
-        asked = linear(hdr[3][0], ('param', 1)) if hdr is not None and len(hdr[3]) == 1 else None
-        ok = k == 'return' and asked is not None and asked[0] >= 1 and asked[1] >= 0 and len(lw) == 1 and lw[0][2] == ('param', 1)
-        okc = False
-        for c in copies:
-            a = c[3]
-            if len(a) == 3 and a[0] == ('param', 0) and a[1] in (('op', '+', ('param', 0), ('param', 1)),) and 'data' in contracts.render(a[2], st, {}) \
-                    and find(a[2], lambda t: named_call(t, 'allocate')) is not None and a[2][0] == 'addr':
-                idx = a[2][1]
-                okc = idx[0] == 'index' and idx[2] == ('k', 0, 'int')
+        # a recognised bulk copy (copy / copy_n / memcpy / char_traits::copy ...) of exactly n bytes from s to data[0 ..)
+        import arena as _arena
+        copies = _arena.bulk_copies(F, mf)[i][3] if i < len(_arena.bulk_copies(F, mf)) else []
+        okc = any(src == ('param', 0) and cnt == {('param', 1): 1} and dst == {} for src, cnt, dst in copies)
         ck.check(R2, f'make_string#{i}', ok and okc, f'make_string: length write={[contracts.render(e[2], st, {}) for e in lw]}, '
-                 f'copy={[contracts.render(c, st, {})[:120] for c in copies]}', loc=mf['loc'], fn=mf['id'])
+                 f'copies (source, count, destination index)={[(contracts.render(c[0], st, {})[:40], c[1], c[2]) for c in copies]}', loc=mf['loc'], fn=mf['id'])
     ck.check(R2, 'make_string returns header', all(k == 'return' and find(v, lambda t: named_call(t, 'allocate')) is not None for st, k, v in S3.run(mf['id'])),
              'make_string does not return the allocated header', loc=mf['loc'], fn=mf['id'])
 
@@ -394,8 +387,13 @@ def run(ck, F):
                     writers.add(g2['id'])
     ck.check(R4, 'writers of util::string', writers <= {MKSTR}, f'util::string objects are written in {sorted(writers)}', loc=srec['loc'])
     sp = F.need_rec('ipr::util::string_pool')
-    ck.check(R4, 'bucket kind', any('std::forward_list<ipr::impl::String' in b['name'] or 'forward_list<ipr::impl::String' in b['name'] for b in sp['bases']),
-             f'string_pool buckets are {[b["name"][:80] for b in sp["bases"]]}', loc=sp['loc'])
+    # where the String nodes live (a base or a data member of the pool): a reference-stable sequence per bucket
+    homes = [b['name'] for b in sp['bases']] + [fl['t'] for fl in sp['fields']]
+    holders = [h for h in homes if 'ipr::impl::String' in h]
+    stable = [h for h in holders if any(k + '<ipr::impl::String' in h for k in ('forward_list', 'std::list', 'list', 'deque'))
+              and not any(k + '<ipr::impl::String' in h for k in ('vector', 'basic_string'))]
+    ck.check(R4, 'bucket kind', bool(holders) and len(stable) == len(holders),
+             f'string_pool keeps its String nodes in {[h[:100] for h in holders]}: not (only) reference-stable sequences', loc=sp['loc'])
     dels = set()
     for g2 in F.fn.values():
         if not (g2.get('parent') or '').startswith('ipr::util::string'):
@@ -434,10 +432,24 @@ def run(ck, F):
              and (n.get('callee') or {}).get('repo') is False]
     idiom, over, confirm = None, False, False
     cmp_cls = None
+    projected = False
+    #   C  std::ranges::lower_bound / equal_range(table, w, less, &row::text): rows ordered by `<` on their projected text
+    ralgos = [n for n in walk(body) if n.get('k') == 'call' and ((n.get('callee') or {}).get('parent') or '') in
+              ('std::ranges::__lower_bound_fn', 'std::ranges::__equal_range_fn')]
+    if not algos and len(ralgos) == 1:
+        a0 = ralgos[0]
+        a0 = dict(a0, callee=dict(a0['callee'], name='lower_bound' if 'lower' in a0['callee']['parent'] else 'equal_range'))
+        cargs = a0.get('args', [])
+        rng_ok = bool(cargs) and strip_casts(cargs[0]).get('k') == 'ref' and strip_casts(cargs[0]).get('name') == 'known_words'
+        cmp_ok = len(cargs) >= 4 and any(x in (cargs[2].get('t') or '') + str(strip_casts(cargs[2]).get('t')) for x in ('ranges::less', 'std::less'))
+        prj_ok = len(cargs) >= 4 and any(m.get('k') == 'ref' and m.get('kind') == 'fn' and (m.get('fn') or {}).get('name') == 'text' for m in walk(cargs[3]))
+        if rng_ok and cmp_ok and prj_ok:
+            projected = True
+            algos = [dict(a0, args=[])]
     if len(algos) == 1:
         a0 = algos[0]
         idiom = a0['callee']['name']
-        over = whole_table(a0)
+        over = whole_table(a0) or projected
         cargs = a0.get('args', [])
         if len(cargs) == 4:
             ct = strip_casts(cargs[3])
@@ -465,7 +477,7 @@ def run(ck, F):
     # the ordering used by the search: every call operator of the comparator is `text of the row < word` (or the mirror image)
     ops = [g2 for g2 in F.fn.values() if g2['name'] == 'operator()' and len(g2['params']) == 2 and
            ((cmp_cls and g2.get('parent') == cmp_cls) or (not cmp_cls and g2.get('lambda_call') and '(lambda word_lt)' in g2['id']))]
-    good = bool(ops)
+    good = bool(ops) or projected
     S6 = Sym(F, opaque=lambda fid: F.fn.get(fid) is None)
     for g2 in ops:
         try:
